@@ -272,6 +272,8 @@ class Real:
     def give(self, v, keep=True):
         """a SymbolAttributes object handed to the caller: must be a fresh object; it becomes a handle unless ``keep`` is
         false (the value returned by ``setdefault`` is reported but not tracked, as in the specification)"""
+        if not isinstance(v, SymbolAttributes):      # the table handed out something that is not an attributes object
+            return NONE if v is None else [A('foreign'), type(v).__name__]
         shared = any(v is h for h in self.hs) or any(v is x for t in self.tabs for x in dict.values(t))
         if keep:
             self.hs.append(v)
